@@ -32,3 +32,75 @@ Definition C05_spec (aux : bool * list (Z * Z)) (o : parse_out) : bool :=
         && Spec.C05.spec_b tr
     | _ => false
     end).
+
+(** *** C11 *)
+Definition qres := result (Z * Z).
+Definition ZZ_eqb (a b : Z * Z) : bool := (fst a =? fst b) && (snd a =? snd b).
+Definition qres_eqb : qres -> qres -> bool := result_eqb ZZ_eqb.
+Definition gov_ticks (ticks : list Z) (t : Z) : Z := Zlength_ (filter (fun x => x <=? t) ticks) - 1.
+
+Definition tempo_in := (Z * list (Z * str))%type.            (* resolution, (tick, numeral) *)
+Definition C11q_in := (tempo_in * list (Z * Z))%type.        (* + queries (tick, hint) *)
+Definition C11q_out := result (list qres).
+
+Definition C11q_model (c : cfg) (i : C11q_in) : C11q_out :=
+  let '((R, tm), qs) := i in
+  let* B := build_bpm_events (tbl c) tm R in
+  Ok (map (fun q => timestamp_at_tick B (fst q) (snd q)) qs).
+
+Definition C11q_verdict (c : cfg) (i : C11q_in) (o : C11q_out) : N :=
+  verdict (result_eqb (list_eqb qres_eqb)) (C11q_model c i) o.
+
+Fixpoint zlookup {A} (k : Z) (l : list (Z * A)) : option A :=
+  match l with
+  | [] => None
+  | (k', v) :: l' => if k =? k' then Some v else zlookup k l'
+  end.
+
+Definition C11q_spec (i : C11q_in) (o : C11q_out) : bool :=
+  let '((R, tm), qs) := i in
+  match o with
+  | Err _ => false
+  | Ok outs =>
+      let ticks := map fst tm in
+      let refs := flat_map (fun qr => if snd (fst qr) =? 0 then [(fst (fst qr), snd qr)] else [])
+                           (combine qs outs) in
+      Nat.eqb (length outs) (length qs) &&
+      forallb (fun qr =>
+                 let '((t, h), r) := qr in
+                 let g := gov_ticks ticks t in
+                 if h <=? g then
+                   match zlookup t refs with
+                   | Some r0 => qres_eqb r r0 && match r with Ok (_, idx) => idx =? g | Err _ => true end
+                   | None => false
+                   end
+                 else qres_eqb r (Err EValue))
+              (combine qs outs)
+  end.
+
+Definition bpm_as_timed (b : bpm_event) : timed := mkT (b_tick b) (b_ts b) (b_idx b).
+Definition track_timed (tr : itrack) : list timed :=
+  map n_at (it_notes tr) ++ map sp_at (it_sps tr) ++ map te_at (it_tevs tr).
+Definition all_timed (ch : chart) : list timed :=
+  map bpm_as_timed (evs (st_bpm (c_sync ch))) ++ map ts_at (st_ts (c_sync ch))
+  ++ map ge_at (g_text (c_gev ch)) ++ map ge_at (g_section (c_gev ch)) ++ map ge_at (g_lyric (c_gev ch))
+  ++ flat_map track_timed (all_tracks ch).
+Definition note_ends (ch : chart) : list (result Z * Z) :=
+  flat_map (fun tr => map (fun e => (let* l := longest_sustain (n_sustain e) in Ok (n_tick e + l), n_end_ts e))
+                          (it_notes tr)) (all_tracks ch).
+
+(** aux: is the file sorted (then an error is a violation)?  and the implementation's own
+    un-hinted query for every tick occurring in the chart. *)
+Definition C11c_spec (aux : bool * list (Z * qres)) (o : parse_out) : bool :=
+  match o with
+  | Err e => negb (fst aux) && errkind_eqb e EValue
+  | Ok (ch, _) =>
+      forallb (fun e => match zlookup (t_tick e) (snd aux) with
+                        | Some r => timed_matches r e
+                        | None => false end) (all_timed ch)
+      && forallb (fun p => match fst p with
+                           | Ok et => match zlookup et (snd aux) with
+                                      | Some (Ok (ts, _)) => ts =? snd p
+                                      | _ => false end
+                           | Err _ => false end) (note_ends ch)
+  end.
